@@ -53,9 +53,9 @@ CLASS_OF = {"HTMLFileTitleHandler": "html", "CompressedFileHandler": "comp", "Fi
 
 EXTRA_TYPES = """# site-local additions (the shipped `mimetypes` option lists several files): extensions for the types
 # that the shipped mapping list names but no shipped extension has, and look-alikes of its literal rules
+# (application/gopher-menu is left out: every protocol rewrites that type for menus)
 text/htmlx			htmlx
 image/gif2			gif2
-application/gopher-menu		gm
 application/gopher+-menu	gpm
 multipart/mixed			mpm
 multipart/mixedup		mpx
@@ -63,20 +63,23 @@ x-xtype/unknown			xun
 """
 EXTRA_MIMES = ["application/gopher-menu", "application/gopher+-menu", "multipart/mixed", "text/", "x", ""]
 
-BODY_TOKS_QUICK = ["w1", "w2", "sp", "tab", "lf", "crlf", "nbsp", "amp", "lt", "entnbsp", "badent", "cr9", "cr10", "cr13",
-                   "cr65", "cr0", "rawff", "rawutf", "tagb", "comment", "long"]
+BODY_TOKS_QUICK = ["w1", "w2", "sp", "tab", "lf", "crlf", "nbsp", "amp", "entnbsp", "badent", "cr9", "cr10", "cr13",
+                   "rawff", "tagb", "comment", "long"]
 ALL_TOKS = ["w1", "w2", "sp", "sp2", "tab", "lf", "crlf", "vt", "ff", "fs", "nbsp", "nel", "ls", "amp", "lt", "gt", "eacute",
             "entnbsp", "ampbare", "badent", "cr9", "cr10", "cr13", "cr65", "crx41", "cr0", "cr27", "cr128", "rawff", "rawutf",
             "rawc3", "tagb", "tagbr", "comment", "nul", "long"]
 SMALL_WRAPS = ["upper", "attr", "late", "oneline", "none", "open", "noclose", "incomment", "inscript", "stray", "selfclosed",
                "two", "twolines", "bom"]
 
-QUICK = dict(cfgs=["K0", "K1", "K2", "K3", "K4"], acfgs=["K0"], astride=6, title_full=["K3", "K4"], title_small=["K0", "K2"],
-             maxbody=2, body_toks=BODY_TOKS_QUICK, html_names=["p.html"], reps_per_rule=1, second=[".txt", ".gif"],
-             triple_first=[".txt"], triple_enc=[".gz", ".bz2"], tlc_timeout=600)
+QUICK = dict(cfgs=["K0", "K1", "K2", "K3", "K4"], acfgs=["K0"], astride=8, double_cfgs=["K0", "K1", "K3"],
+             title_full=["K3"], title_mid=["K4"], title_small=["K0", "K2"],
+             maxbody=2, body_toks=BODY_TOKS_QUICK, body3_toks=[], html_names=["p.html", "q.HTM"], full_html_names=["p.html"], reps_per_rule=1, second=[".txt", ".gif"],
+             enc_extra=[".GZ", ".z"], triple_first=[".txt"], triple_enc=[".gz", ".bz2"], tlc_timeout=600)
 THOROUGH = dict(cfgs=["K0", "K1", "K2", "K3", "K4", "K5", "K6", "K7", "K8", "K9"], acfgs=["K0", "K4", "K9"], astride=1,
-                title_full=["K3", "K4", "K8"], title_small=["K0", "K1", "K2", "K9"], maxbody=2, body_toks=ALL_TOKS,
-                html_names=["p.html", "q.HTM"], reps_per_rule=2, second=[".txt", ".gif", ".html", ".tar"],
+                double_cfgs=["K0", "K1", "K2", "K3", "K4", "K5", "K6", "K7", "K8", "K9"],
+                body3_toks=["w1", "sp", "tab", "lf", "crlf", "amp", "nbsp", "cr10", "tagb", "rawff"], enc_extra=[".GZ", ".z", ".Bz2", ".TAL"],
+                title_full=["K3", "K8"], title_mid=["K4"], title_small=["K0", "K1", "K2", "K9"], maxbody=2, body_toks=ALL_TOKS,
+                html_names=["p.html", "q.HTM", "r.shtml"], full_html_names=["p.html"], reps_per_rule=2, second=[".txt", ".gif", ".html", ".tar"],
                 triple_first=[".txt", ".tar"], triple_enc=[".gz", ".bz2", ".Z"], tlc_timeout=1500)
 TIERS = {"quick": QUICK, "thorough": THOROUGH}
 
@@ -210,6 +213,32 @@ def resolve_configs(ids):
     return dict(cfgs=out, maps=maps, patts=patts, encs=encs, ignorepatt=cp.get("handlers.dir.DirHandler", "ignorepatt"))
 
 
+def configured_encodings(expr):
+    """The `encoding` option evaluated as initialization.py does, in a clean interpreter that never imports pygopherd."""
+    import subprocess
+    import sys
+    code = "import mimetypes, json, sys; print(json.dumps(sorted(dict(eval(sys.argv[1])).items())))"
+    out = subprocess.run([sys.executable, "-I", "-c", code, expr], capture_output=True, text=True, timeout=60)
+    if out.returncode != 0:
+        raise core.MachineryError("cannot evaluate the encoding option: %s" % out.stderr[-500:])
+    return [tuple(p) for p in json.loads(out.stdout)]
+
+
+def read_mime_file(path):
+    """(extension, type) pairs of a mime.types file (the file format of Python's mimetypes.MimeTypes.readfp)."""
+    pairs = {}
+    with open(path, encoding="utf-8") as fp:
+        for line in fp:
+            words = line.split()
+            for i, wd in enumerate(words):
+                if wd[0] == "#":
+                    del words[i:]
+                    break
+            for suff in words[1:]:
+                pairs["." + suff] = words[0]
+    return pairs
+
+
 def world_for(k, b, extra_types):
     """The real server under configuration k (called inside a worker process only)."""
     from harness import world
@@ -282,6 +311,10 @@ def b1(t, scratch):
             if b["tables"][e][part] != first[part]:
                 raise core.MachineryError("table %s differs between encoding configurations" % part)
     b["strict"], b["loose"], b["suf"] = first["strict"], first["loose"], first["suf"]
+    b["enc_configured"] = {e: configured_encodings(b["encs"][e]) for e in enc_ids}
+    conf_types = read_mime_file(os.path.join(core.REPO, "conf", "mime.types"))
+    conf_types.update(read_mime_file(extra_types))
+    b["conf_types"] = conf_types
     for ext in list(b["strict"]) + list(b["loose"]):
         if not re.fullmatch(r"\.[\x21-\x7e]+", ext) or "/" in ext or '"' in ext or "\\" in ext or "?" in ext or "#" in ext:
             raise core.MachineryError("extension %r of the configured tables cannot be written as a test name" % ext)
@@ -326,13 +359,13 @@ def choose_reps(b, t):
     type_reps = list(reps)
     enc_keys = sorted({e for tab in b["tables"].values() for e in tab["enc"]})
     return dict(type_reps=type_reps, reps=type_reps + enc_keys + sorted(b["suf"]) + [".zzz", ".q-q"],
-                enc_variants=enc_keys + [".GZ", ".z", ".Bz2"], enc_keys=enc_keys)
+                enc_variants=enc_keys + t["enc_extra"], enc_keys=enc_keys)
 
 
 def consts_module(b, t, reps):
     types = b["strict"]
     allexts = sorted(set(b["strict"]) | set(b["loose"]))
-    aexts = allexts[:: t["astride"]]
+    aexts = [e for e in allexts if not set(e) & set("%{}")][:: t["astride"]]      # display names travel percent-quoted
     lines = ["--------------------------- MODULE MC_XTYPE_consts ---------------------------",
              "(* generated by harness/xtype.py from the tree under test (binding B1); the committed copy shows the shipped values *)",
              "EXTENDS Naturals, Sequences",
@@ -353,30 +386,35 @@ def consts_module(b, t, reps):
                   tla_set(k["decomp"]), tla_str(k["patt"]), tla_str(k["defmime"])) for kid, k in sorted(b["cfgs"].items())],
              "K_Cfg(id) == " + tla_case("id", [(kid, "K_Cfg_" + kid) for kid in sorted(b["cfgs"])], "[enc |-> \"\"]"),
              "K_Cfgs == " + tla_set(t["cfgs"]), "K_ACfgs == " + tla_set(t["acfgs"]),
-             "K_TitleFull == " + tla_set(t["title_full"]), "K_TitleSmall == " + tla_set(t["title_small"]),
-             "K_BodyToks == " + tla_set(t["body_toks"]), "K_HtmlNames == " + tla_set(t["html_names"]),
+             "K_DoubleCfgs == " + tla_set(t["double_cfgs"]),
+             "K_TitleFull == " + tla_set(t["title_full"]), "K_TitleMid == " + tla_set(t["title_mid"]), "K_TitleSmall == " + tla_set(t["title_small"]),
+             "K_BodyToks == " + tla_set(t["body_toks"]), "K_Body3Toks == " + tla_set(t["body3_toks"]), "K_HtmlNames == " + tla_set(t["html_names"]), "K_FullHtmlNames == " + tla_set(t["full_html_names"]),
              "K_SmallWraps == " + tla_set(SMALL_WRAPS),
              "K_AllExts == " + tla_set(allexts), "K_AExts == " + tla_set(aexts),
              "K_RepExts == " + tla_set(reps["reps"]), "K_RepTypeExts == " + tla_set(reps["type_reps"]),
              "K_EncVariants == " + tla_set(reps["enc_variants"]), "K_SecondExts == " + tla_set(t["second"]),
              "K_TripleFirst == " + tla_set(t["triple_first"]), "K_TripleEnc == " + tla_set(t["triple_enc"]),
              "K_DotFileExts == " + tla_set([".gif", ".html", ".tar.gz", ".txt"]),
-             "K_Specials == " + tla_set(["README", "f.", "f..", "f.txt.", "Welcome.txt", "pygopherd.tar.gz", "a.b.txt", "f.tar.gz.txt"]),
+             "K_Specials == " + tla_set(["README", "f.", "f.txt.", "Welcome.txt", "pygopherd.tar.gz", "a.b.txt", "f.tar.gz.txt"]),
              "K_DirNames == " + tla_set(["sub.txt", "arch.tar.gz", "page.html"]),
              "K_DottedDirs == " + tla_set(["/d.gif", "/v.tar.gz"]),
              "K_DeepNames == " + tla_set(["plain", "x.txt", "y.txt.gz", ".hid.html"]),
              "K_AuditMaps == " + tla_set(sorted({k["map"] for k in b["cfgs"].values()})),
              "K_ExtraMimes == " + tla_set(EXTRA_MIMES),
+             "K_EncTabs == " + tla_set(sorted(b["tables"])),
+             "K_EncConfigured(tab) == " + tla_case("tab", [(tab, "{" + ", ".join("<<%s, %s>>" % (tla_str(a), tla_str(c)) for a, c in pairs) + "}")
+                                                             for tab, pairs in sorted(b["enc_configured"].items())], "{}"),
+             "K_ConfTypes == {" + ", ".join("<<%s, %s>>" % (tla_str(a), tla_str(c)) for a, c in sorted(b["conf_types"].items())) + "}",
              "============================================================================="]
     return "\n".join(lines) + "\n"
 
 
 CONST_NAMES = ["StrictType", "LooseType", "SufOf", "EncOf", "EncKeys", "Mapping", "Patt", "IgnoreRe", "Cfg"]
-MC_CONST_NAMES = ["Cfgs", "ACfgs", "TitleFull", "TitleSmall", "BodyToks", "HtmlNames", "SmallWraps", "AllExts", "AExts", "RepExts",
+MC_CONST_NAMES = ["Cfgs", "ACfgs", "DoubleCfgs", "TitleFull", "TitleMid", "TitleSmall", "BodyToks", "Body3Toks", "HtmlNames", "FullHtmlNames", "SmallWraps", "AllExts", "AExts", "RepExts",
                   "RepTypeExts", "EncVariants", "SecondExts", "TripleFirst", "TripleEnc", "DotFileExts", "Specials", "DirNames",
-                  "DottedDirs", "DeepNames", "AuditMaps", "ExtraMimes"]
+                  "DottedDirs", "DeepNames", "AuditMaps", "ExtraMimes", "EncTabs", "EncConfigured", "ConfTypes"]
 INVARIANTS = ["FirstMatchWinsInv", "ShippedYieldsInv", "TableTypedInv", "AnnouncedIsDeliveredInv", "HtmlOnlyNamesInv",
-              "StripOnlyNameInv", "TitleCleanInv", "TitleShownInv", "NoTitleKeepsNameInv", "DeviationsNamedInv", "RepsCoverRulesInv"]
+              "StripOnlyNameInv", "TitleCleanInv", "TitleShownInv", "NoTitleKeepsNameInv", "DeviationsNamedInv", "RepsCoverRulesInv", "TablesAsConfiguredInv"]
 
 
 def cfg_text(t, trace):
@@ -395,10 +433,10 @@ def cfg_text(t, trace):
 # gamma / alpha helpers
 def q(s) -> str:
     """Percent-quoted ASCII (what the trace carries): printable ASCII but % { } stays, every other byte is %XX;
-    runs of 50 or more x are written {x*N}."""
+    every run of 5000 letters x is written {x*5000}."""
     raw = s if isinstance(s, bytes) else s.encode("utf-8", "surrogateescape")
     out = "".join(chr(c) if 0x20 <= c <= 0x7E and c not in (0x25, 0x7B, 0x7D) else "%%%02X" % c for c in raw)
-    return re.sub(r"x{50,}", lambda m: "{x*%d}" % len(m.group(0)), out)
+    return out.replace("x" * 5000, "{x*5000}")
 
 
 def unq(src: str) -> bytes:
@@ -570,7 +608,7 @@ def drive(w, k, cases):
                 st, items, bad = lex_blocks(r.out)
                 h = items[0] if items else {"type": "", "name": "", "sel": "", "mime": "", "lang": "", "views": 0}
                 o = {"st": st, "n": len(items), "bad": bad, "esc": r.escaped or "", "by": handler_of(r), "type": h["type"], "name": h["name"],
-                     "sel": q(h["sel"]), "mime": h["mime"], "lang": h["lang"], "views": h["views"]}
+                     "sel": h["sel"], "mime": h["mime"], "lang": h["lang"], "views": h["views"]}
             elif kind == "http":
                 r = w.request(b"HEAD " + urllib.parse.quote(sel).encode() + b" HTTP/1.0\r\n\r\n")
                 o = http_head(r.out)
@@ -707,3 +745,178 @@ def replay_cases(b, cases):
         results.update({int(i): v for i, v in g["obs"].items()})
         requests += g["requests"]
     return results, requests
+
+
+# ---------------------------------------------------------------------------------------------------
+def selftest(b, t, reps, cases, traces, accepted_ids):
+    """Binding demonstration: recorded traces that TraceXTYPE accepted are corrupted in one field / lose one event;
+    TraceXTYPE must then name the clause."""
+    def pick(pred):
+        for case, tr in zip(cases, traces):
+            if tr["id"] in accepted_ids and pred(case["c"], tr):
+                return json.loads(json.dumps(tr))
+        return None
+
+    def ev(tr, kind, ps=1):
+        return next(e for e in tr["events"] if e["ev"] == kind and e["pass"] == ps)
+    muts = []
+    tr = pick(lambda c, x: c["fam"] == "name" and c["kind"] == "file" and c["n"] == "f.gif" and c["cfg"] == "K0")
+    if tr:
+        a = json.loads(json.dumps(tr))
+        ev(a, "info")["o"]["type"] = "I"
+        muts.append(("FirstMatchWins", a))
+        a = json.loads(json.dumps(tr))
+        ev(a, "http")["o"]["ctype"] = "image/png"
+        muts.append(("ViewsConsistent", a))
+        a = json.loads(json.dumps(tr))
+        del a["events"][-1]
+        muts.append(("Incomplete", a))
+        a = json.loads(json.dumps(tr))
+        ev(a, "get", 2)["o"]["cls"] = "plain"
+        muts.append(("HistoryFree", a))
+        a = json.loads(json.dumps(tr))
+        for e in a["events"]:
+            if e["ev"] in ("info", "row"):
+                e["o"]["mime"], e["o"]["type"] = "image/png", "I"
+            if e["ev"] == "row0":
+                e["o"]["type"] = "I"
+            if e["ev"] == "http":
+                e["o"]["ctype"] = "image/png"
+            if e["ev"] == "gem":
+                e["o"]["meta"] = "image/png"
+        muts.append(("TableTyped", a))
+    tr = pick(lambda c, x: c["fam"] == "name" and c["n"] == "Welcome.txt" and b["cfgs"][c["cfg"]]["strip"] != "none"
+              and b["cfgs"][c["cfg"]]["dirh"] == "UMN")
+    if tr:
+        for e in tr["events"]:
+            if e["ev"] in ("row0", "row"):
+                e["o"]["name"] = "Welcome.txt"
+        muts.append(("StripOnlyName", tr))
+    tr = pick(lambda c, x: c["fam"] == "title" and c["wrap"] == "std" and c["body"] == ["w1", "tab", "w2"][:len(c["body"])] and len(c["body"]) == 2
+              and x["events"][0]["o"]["name"] == "Ab ")
+    if tr:
+        for e in tr["events"]:
+            if e["ev"] == "info":
+                e["o"]["name"] = "Ab%09"
+        muts.append(("TitleClean", tr))
+    tr = pick(lambda c, x: c["fam"] == "title" and c["wrap"] == "std" and c["body"] == ["w1"] and b["cfgs"][c["cfg"]]["strip"] == "none")
+    if tr:
+        for e in tr["events"]:
+            if e["ev"] in ("row0", "row"):
+                e["o"]["name"] = "p.html"
+        muts.append(("TitleShown", tr))
+    if len(muts) < 6:
+        raise core.MachineryError("selftest: only %d recorded traces could be corrupted" % len(muts))
+    tv = validate(b, t, reps, [m[1] for m in muts], slices=1)
+    got = {rj["index"]: rj["clause"] for rj in tv["rejected"]}
+    bad = [(i, want, got.get(i, "accepted")) for i, (want, _tr) in enumerate(muts) if got.get(i) != want]
+    return len(muts), bad
+
+
+def main(chk, replay=None):
+    t = TIERS[chk.tier]
+    scratch = tlc.new_scratch("xtype")
+    cov = {"states": 0, "transitions": 0, "traces_validated_against_impl": 0, "evaluations": 0, "exhaustive": True, "samples": [],
+           "checker_cmd": ""}
+    try:
+        b = b1(t, scratch)
+        reps = choose_reps(b, t)
+        if replay:
+            with open(replay) as fp:
+                rp = json.load(fp)
+            if "case" not in rp.get("detail", {}):            # a violated invariant of the bounded model: check the model again
+                res, cases, _a = model_check(chk, b, t, reps)
+                cov.update(states=res.get("distinct", 0), transitions=res.get("generated", 0), exhaustive=False)
+                return chk.finish(cov, ["replay of a model-level violation: the bounded model re-checked with the constants of this tree"])
+            case = rp["detail"]["case"]
+            results, _n = replay_cases(b, [case])
+            traces = make_traces(b, [case], results)
+            tv = validate(b, t, reps, traces, slices=1)
+            for rj in tv["rejected"]:
+                chk.violation(rp["key"], rj["clause"], flat_case(b, case), {"case": case, "trace": traces[0]})
+            cov.update(traces_validated_against_impl=tv["accepted"], evaluations=1, exhaustive=False)
+            return chk.finish(cov, ["replay of one stored case"])
+        res, cases, audits = model_check(chk, b, t, reps)
+        if not cases and chk.violations:
+            cov["exhaustive"] = False
+            return chk.finish(cov, ["the bounded model violates an invariant with the constants of this tree; no replay"])
+        cov.update(states=res["distinct"], transitions=res["generated"], checker_cmd=res["cmd"], tlc_wall_s=res["wall_s"], audits=audits)
+        if audits < 3 or not cases:
+            raise core.MachineryError("vacuous model run: %d audit states, %d cases" % (audits, len(cases)))
+        results, nreq = replay_cases(b, cases)
+        traces = make_traces(b, cases, results)
+        for case, tr in zip(cases, traces):
+            if len(tr["events"]) != len(order_of(case)):
+                raise core.MachineryError("case %s: %d events recorded, %d expected" % (tr["id"], len(tr["events"]), len(order_of(case))))
+        tv = validate(b, t, reps, traces)
+        cov.update(traces_validated_against_impl=tv["accepted"], evaluations=len(traces), requests_to_real_server=nreq,
+                   trace_wall_s=tv["wall_s"], trace_states=tv["states"])
+        rejected_ids = set()
+        for rj in tv["rejected"]:
+            case, tr = cases[rj["index"]], traces[rj["index"]]
+            rejected_ids.add(tr["id"])
+            if rj["clause"] in MACHINERY:
+                raise core.MachineryError("trace %s: %s at event %s\n%s" % (tr["id"], rj["clause"], rj["at"], json.dumps(tr)[:1500]))
+            chk.violation(case_key(case) + "|" + rj["clause"], rj["clause"], flat_case(b, case),
+                          {"case": case, "at": rj["at"], "trace": tr})
+        chk.note_drift([{"id": d["id"], "at": d["at"], "what": d["what"]} for d in tv["drift"]])
+        # ---- what was actually exercised (counted from the lexed answers) --------------------------------------
+        nt = {"types_seen": set(), "mimes_seen": set(), "decompressed": 0, "encoded_as_octet": 0, "stripped": 0, "titles_shown": 0,
+              "names_kept": 0, "handlers": set()}
+        for case, tr in zip(cases, traces):
+            c = case["c"]
+            info = tr["events"][0]["o"]
+            nt["types_seen"].add(info["type"])
+            nt["mimes_seen"].add(info["mime"])
+            nt["handlers"].add(info["by"])
+            for e in tr["events"]:
+                if e["pass"] != 1:
+                    continue
+                if e["ev"] == "get" and e["o"]["cls"] == "plain":
+                    nt["decompressed"] += 1
+                if e["ev"] == "get" and e["o"]["cls"] == "raw" and info["mime"] == "application/octet-stream":
+                    nt["encoded_as_octet"] += 1
+                if e["ev"] == "row0" and e["o"]["n"] == 1:
+                    if c["fam"] == "name" and e["o"]["name"] != q(c["n"]):
+                        nt["stripped"] += 1
+                    if c["fam"] == "name" and e["o"]["name"] == q(c["n"]):
+                        nt["names_kept"] += 1
+                    if c["fam"] == "title" and e["o"]["name"] != q(c["n"]) and e["o"]["name"] == info["name"]:
+                        nt["titles_shown"] += 1
+        counts = {k: (len(v) if isinstance(v, set) else v) for k, v in nt.items()}
+        need = ["types_seen", "mimes_seen", "encoded_as_octet", "stripped", "titles_shown", "names_kept"]
+        if any(counts[k] == 0 for k in need) or counts["types_seen"] < 5 or not {"html", "file"} <= nt["handlers"]:
+            raise core.MachineryError("vacuous run: %r" % counts)
+        if any(k["decomp"] for k in b["cfgs"].values()) and counts["decompressed"] == 0:
+            raise core.MachineryError("vacuous run: a decompressor is configured but nothing was delivered decompressed")
+        accepted_ids = {tr["id"] for tr in traces} - rejected_ids
+        nmut, bad = selftest(b, t, reps, cases, traces, accepted_ids)
+        if bad and not chk.violations:
+            raise core.MachineryError("selftest: corrupted traces not rejected as expected: %r" % bad)
+        cov["selftest_corrupted_traces_rejected"] = nmut - len(bad)
+        cov["distinct_nontrivial"] = counts["mimes_seen"] + counts["decompressed"] + counts["stripped"] + counts["titles_shown"]
+        cov["nontrivial"] = counts
+        cov["rule"] = ("counted from the lexed answers: distinct MIME types announced, files delivered decompressed, listing names "
+                       "that differ from the file name by extension stripping, listing names that are the HTML title")
+        per = {}
+        for case in cases:
+            key = "%s/%s" % (case["c"]["fam"], case["c"]["cfg"])
+            per[key] = per.get(key, 0) + 1
+        cov["per_family_cfg"] = per
+        cov["configurations"] = {kid: {x: k[x] for x in ("dirh", "chain", "strip", "map", "enc", "patt", "decomp", "defmime")}
+                                 for kid, k in b["cfgs"].items()}
+        cov["tables"] = {"strict": len(b["strict"]), "loose": len(b["loose"]), "suffix_map": len(b["suf"]),
+                         "encodings": {e: sorted(tb["enc"]) for e, tb in b["tables"].items()}}
+        cov["samples"] = [{"id": x["id"], "events": x["events"][:1]} for x in traces[:: max(1, len(traces) // 5)][:5]]
+        return chk.finish(cov, [
+            "not one of the listed properties; clauses and their documentation sources are in the header of spec/Typing.tla",
+            "requests go through World.request (real GopherRequestHandler, in-memory socket), one fresh process per configuration",
+            "mimetypes tables are imported AFTER the server configured them (conf/mime.types + Python defaults + the machine's "
+            "/etc/mime.types as Python reads it + a small site-local file for the types the shipped mapping names)",
+            "regular expressions are imported as syntax trees of Python's re parser; the matcher is in the model",
+            "directory cache switched off (cachetime 0): caching is C10/C11/C14",
+            "the shipped handler list is modelled by its file handlers (html, file) and UMN; url/gophermap/mbox handlers never "
+            "claim the generated files (checked at design level through the handler class in the log)"])
+    finally:
+        import shutil
+        shutil.rmtree(scratch, ignore_errors=True)
